@@ -203,7 +203,7 @@ CHECKS.update({
              "minimize_components=True on the stub's MILP contract (binary indicators enumerated inside the formula): None iff no medium "
              "suffices, imports positive, returned medium sufficient, and no sufficient distribution imports through fewer exchanges "
              "(universal).",
-        note="minimize_components: True only (one medium; alternative media through integer arguments are not exercised), 2 exchanges. "
+        note="minimize_components: True and 3 (more alternative media asked for than exist), 2 exchanges. "
              "Forced-import situations where the setter must fail are a stated precondition. " + NOTE_COMMON, ref="4/C18"),
     "C19": dict(
         text="find_blocked_reactions (pre-filter, FVA, masks; reaction_list shapes; open_exchanges; model solved before the bounds were "
